@@ -11,7 +11,7 @@ From Coq Require Import String.
 From Coq Require Import List Arith NArith Bool.
 Import ListNotations.
 From YP Require Import Base.Str Lang.Ast Lang.Unquote Lang.Front Comp.IR Comp.CompileBody Comp.CompileClause Comp.Emit
-  Comp.PyRepr Comp.PyLex Comp.PyReprSound Comp.CompileText Comp.EmitShape Comp.EmitNames Comp.EmitPieces Comp.EmitLines Comp.CompileTextSound.
+  Comp.PyRepr Comp.PyLex Comp.PyReprSound Comp.CompileText Comp.EmitShape Comp.EmitNames Comp.EmitPieces Comp.EmitLines Comp.CompileTextSound Comp.FrontLex.
 From YP Require Import Engine.Resolve Engine.ResolveProofs Engine.Keys.
 Local Open Scope string_scope.
 Local Open Scope list_scope.
@@ -53,6 +53,11 @@ Theorem C12_lines_one_line : forall printable p, lexical_ok p = true -> forall i
   Forall (fun l => Forall (fun c => c <> 10%N /\ c <> 13%N) l) (emit_lines (py_repr printable) ir).
 Proof. exact lines_one_line. Qed.
 Print Assumptions C12_lines_one_line.
+
+(* lexical_ok holds for every program the front end returns *)
+Theorem C12_front_lexical : forall s p, front s = Some p -> lexical_ok p = true.
+Proof. exact front_lexical. Qed.
+Print Assumptions C12_front_lexical.
 
 (* the shape behind it: every function is the code of clauses of the program with its key; each of its statements has one of
    the nine shapes of stmt_ok (Comp/EmitShape.v) - no other statement or expression form is ever produced *)
